@@ -300,6 +300,19 @@ func runC09(p *an.Prog, r *an.Run, tier string) {
 			bad = append(bad, an.FuncName(a.Fn)+" removes an entry of "+a.Field+" at "+p.Pos(a.In.Pos())+" by key, outside CloseRemote's check that the entry still belongs to the closing connection")
 		}
 	}
+	// ... and a connection is declared closed by the transport only: CloseRemote is the server's disconnect hook, nothing
+	// in the pool calls it on its own inference (an error of a reverse call that merely looks like a hang-up: a busy but
+	// healthy host would be unregistered for good while its connection stays open)
+	for _, fn := range p.Repo {
+		if p.IsTestFunc(fn) || isTestDoublePkg(fn) || takesTestingT(fn) {
+			continue
+		}
+		for _, c := range an.Calls(fn, false) {
+			if c.Common().StaticCallee() == closeFn {
+				bad = append(bad, an.FuncName(fn)+" calls CloseRemote itself at "+p.Pos(c.Pos())+": only the transport's disconnect hook knows that a connection has ended; a host whose call failed is still connected and would stay unregistered")
+			}
+		}
+	}
 	r.Check(len(bad) == 0, "stale-close", "(*pool.VipnodePool).CloseRemote", closeFn.Pos(), "the forward entry is removed only while it still maps to the closing connection", "%s", strings.Join(dedup(bad), "; "))
 
 	// ---- registered-is-caller
